@@ -46,6 +46,8 @@ func runCase(f []string) (res string) {
 	switch f[1] {
 	case "lex":
 		return caseLex(unhex(f[2]))
+	case "lexc":
+		return caseLexContains(unhex(f[2]))
 	case "parse":
 		return caseParse(unhex(f[2]))
 	case "render":
@@ -91,6 +93,47 @@ func caseLex(src string) string {
 		}
 	}
 	return sb.String() + ";OVERRUN"
+}
+
+// caseLexContains: the token list, then for every byte offset k (0..len) one row of 0/1 per
+// token: token.Position.Contains at the cursor (line, column) of offset k
+func caseLexContains(src string) string {
+	lexed := caseLex(src)
+	l := lexer.New(src)
+	var toks []token.Token
+	for i := 0; i < len(src)+5; i++ {
+		t := l.NextToken()
+		if t.Type == token.ILLEGAL && len(toks) > 0 && toks[len(toks)-1].Type == token.ILLEGAL && toks[len(toks)-1].Pos == t.Pos {
+			break
+		}
+		toks = append(toks, t)
+		if t.Type == token.EOF {
+			break
+		}
+	}
+	var sb strings.Builder
+	line, col := uint(0), uint(0)
+	for k := 0; k <= len(src); k++ {
+		if k > 0 {
+			sb.WriteByte(',')
+		}
+		for _, t := range toks {
+			if t.Pos.Contains(line, col) {
+				sb.WriteByte('1')
+			} else {
+				sb.WriteByte('0')
+			}
+		}
+		if k < len(src) {
+			if src[k] == '\n' {
+				line++
+				col = 0
+			} else {
+				col++
+			}
+		}
+	}
+	return "LEXC\t" + strings.TrimPrefix(lexed, "LEX\t") + "\t" + sb.String()
 }
 
 func caseParse(src string) string {
